@@ -18,6 +18,9 @@ SAN = ["-fsanitize=address,undefined,float-cast-overflow", "-fno-sanitize-recove
 CONFIGS = {
     "dbg": ["-O1", "-g1"] + SAN,
     "bmi2": ["-O1", "-g1", "-mbmi2"] + SAN,
+    # every ISA extension of x86-64-v3 (SSE4.1, AVX2, BMI2, FMA, …) switched on, so that code paths guarded by __SSE4_1__,
+    # __AVX2__, __BMI2__ … are compiled and executed; contraction off so that floating-point results stay those of the plain build
+    "isa": ["-O1", "-g1", "-march=x86-64-v3", "-ffp-contract=off"] + SAN,
     "rel": ["-O2", "-DNDEBUG"],
     "relbmi2": ["-O2", "-DNDEBUG", "-mbmi2"],
     "tsan": ["-O1", "-g1", "-fsanitize=thread"],
